@@ -18,9 +18,9 @@ def namesSeparated (s : SchemaSet) : Bool :=
     | _ => none
   fields.all fun (k, n) => (fields.filter (fun x => x.1 == k && x.2 == n)).length == 1
 
-partial def genWF (seed : Nat) (cyclic small : Bool) (tries : Nat) (wsdl : Bool := false) (multi : Bool := false) : SchemaSet × Nat :=
-  let s := if wsdl then Gen.runWsdl (seed * 1000 + tries) small multi else Gen.run (seed * 1000 + tries) cyclic small
-  if namesSeparated s || tries > 50 then (s, tries) else genWF seed cyclic small (tries + 1) wsdl multi
+partial def genWF (seed : Nat) (cyclic small : Bool) (tries : Nat) (wsdl : Bool := false) (multi : Bool := false) (topo : Bool := false) : SchemaSet × Nat :=
+  let s := if topo then Gen.runTopo (seed * 1000 + tries) else if wsdl then Gen.runWsdl (seed * 1000 + tries) small multi else Gen.run (seed * 1000 + tries) cyclic small
+  if namesSeparated s || tries > 50 then (s, tries) else genWF seed cyclic small (tries + 1) wsdl multi topo
 
 def features (s : SchemaSet) : List String :=
   let comps := s.files.flatMap (·.comps)
@@ -36,11 +36,13 @@ def features (s : SchemaSet) : List String :=
        (if w.ops.any (fun o => !o.input.headers.isEmpty) then ["headers"] else []) ++
        (if w.ops.any (fun o => o.input.bodyParts.isNone) then ["implicitbody"] else [])
    | none => []) ++ (if hasExt then ["ext"] else []) ++
+  (if s.files.any (fun f => f.prefixes.any (fun p => p.2.isEmpty)) then ["defaultns"] else []) ++
+  (if s.files.any (fun f => f.imports.any (fun j => !f.prefixes.any (fun p => p.1 == j))) then ["silentimport"] else []) ++
   (if selfImport then ["selfimport"] else []) ++ (if cyc then ["cycle"] else []) ++
   (if (Ref.reachable s).length < s.files.length then ["unreachable"] else [])
 
-def writeCase (root : String) (idx : Nat) (seed : Nat) (cyclic small : Bool) (wsdl : Bool := false) (multi : Bool := false) : IO Unit := do
-  let (s, tries) := genWF seed cyclic small 0 wsdl multi
+def writeCase (root : String) (idx : Nat) (seed : Nat) (cyclic small : Bool) (wsdl : Bool := false) (multi : Bool := false) (topo : Bool := false) : IO Unit := do
+  let (s, tries) := genWF seed cyclic small 0 wsdl multi topo
   let dir := s!"{root}/c{idx}"
   IO.FS.createDirAll s!"{dir}/in"
   for (f, i) in s.files.zipIdx do
@@ -75,9 +77,9 @@ def writeCase (root : String) (idx : Nat) (seed : Nat) (cyclic small : Bool) (ws
   IO.FS.writeFile s!"{dir}/shapes.txt" (String.join (shapeLines.map (· ++ "\n")))
   IO.FS.writeFile s!"{dir}/ref.obs" (String.join ((Ref.structLines s ++ Ref.wsdlLines s).map (· ++ "\n")))
 
-def main (seed count : Nat) (root : String) (cyclic : Bool := false) (small : Bool := false) (wsdl : Bool := false) (multi : Bool := false) : IO UInt32 := do
+def main (seed count : Nat) (root : String) (cyclic : Bool := false) (small : Bool := false) (wsdl : Bool := false) (multi : Bool := false) (topo : Bool := false) : IO UInt32 := do
   for i in [0:count] do
-    writeCase root i (seed + i) cyclic small wsdl multi
+    writeCase root i (seed + i) cyclic small wsdl multi topo
   return 0
 
 end ZeepVerif.Driver.SpecGen
